@@ -192,6 +192,10 @@ def rule_d(ctx):
     c01.rule_c(ctx)
     c01.rule_d(ctx)
     c01.rule_g(ctx)
+    # deadlines are validated against a time read under the same queue guard that covers the insertion (C08.a = C01.j): otherwise a
+    # key already in the past can enter the queue and the next step writes it to the time cell (time read by others goes backwards)
+    from . import c08
+    c08.rule_a(ctx)
 
 
 WITNESS = ['c01']  # doctest filters in /verif/witness (thorough tier)
